@@ -55,7 +55,7 @@ class ExprMixin:
         if k in ('elem', 'item'):
             t = self.type_of(v.a[0], st)
             return tuple(x[4:] for x in t if x.startswith('seq:'))
-        if k == 'iterof':
+        if k in ('iterof', 'slice'):
             return self.type_of(v.a[0], st)
         if k == 'term' and v.a[0] == 'reversed' and v.a[1]:
             return self.type_of(v.a[1][0], st)
@@ -261,8 +261,12 @@ class ExprMixin:
                         except Exception:
                             pass
                     exact = False
-                    text += sqlmod.hole(src_of(p.value))
-            out.append(((C(text) if exact else V('str', text)), s))
+                    if v.k == 'str' and p.conversion == -1 and not spec:
+                        text += v.a[0]
+                    else:
+                        text += sqlmod.hole(src_of(p.value))
+            deps = tuple(x for x in vals if not x.is_const)
+            out.append(((C(text) if exact else V('str', text, deps)), s))
         return out
 
     def e_IfExp(self, e, st):
